@@ -7,17 +7,21 @@
   `[0,1]` (positive widths, positive semidefinite covariances, positive
   concentration, explicit bounds on the scale factors in terms of the gains of the
   window), (ii) the acceptance mass of the rejection loops as a function of
-  scale / width, and (iii) the two negative results that (i) and (ii) force on
-  the code as it is:
+  scale / width, and (iii) what (i) and (ii) force on the code as it is:
     * `C14_at_stall_witness` — the Andrieu–Thoms / eigenvector scale factor has no
       cap: always-accepted histories drive `log λ` to `(1-ξ)(1.5 T^0.4 - 10/3)`,
-      and a rejection loop on a bounded domain then needs `≥ σ/(L w)` draws;
-    * `C14_vmf_overflow_witness` — always-rejected histories with
+      and a rejection loop on a bounded domain then needs `≥ σ/(L w)` draws
+      (recorded finding F19);
+    * `C14_vmf_norm_underflow_witness` — always-rejected histories with
       `adaptation_duration ≥ 1200` drive the exact concentration above 709, where
-      IEEE doubles cannot represent `4π sinh κ` (threshold ≈ 707.94) and the
-      `norm` setter raises.
-  IEEE arithmetic enters only through the representability predicate
-  `Representable κ := κ ≤ 707` in `C14_vmf_no_raise_partial`.
+      IEEE doubles evaluate `κ/(4π sinh κ)` to 0 (threshold ≈ 707.94).  Since the
+      repair of F18 the `norm` setter accepts 0, `_logpdf` uses the log-space
+      `_lognormalisation` and `_new_point` does not use `norm`: no update raises
+      for any finite `κ > 0` (`C14_vmf_no_raise`).
+  IEEE arithmetic enters only through `Representable lk := -745 < lk < 709` (the
+  range on which `numpy.exp` is positive and finite): `C14_vmf_logkappa_representable`
+  proves that the exact `log κ` stays inside it for every history and every
+  adaptation duration up to 10^6.
 -/
 import EpsieProofs.AdaptLemmas
 import EpsieProps.C13
@@ -70,7 +74,8 @@ variable {α : Type} [Field α] [LinearOrder α] [IsStrictOrderedRing α]
 /-! ## Sivia–Skilling -/
 
 /-- Under every accept/reject history: every entry of the scale stays positive, and with a
-    cap no entry ever exceeds `max(initial bound, cap)`.  (Default caps: `1.49 w` bounded
+    cap no entry ever exceeds `max(σ₀, max_std)` (`B` any bound on both): narrowing is always
+    allowed, widening only within the cap.  (Default caps: `1.49 w` bounded
     normal / discrete, `1.49·2π` angular ⇒ `C14_retry_bound_scale` with `c = 1.49`.) -/
 theorem C14_ss_bounded {m : Nat} (c : SSCfg α) (hup : ∀ n, 0 < c.alphaUp n)
     (hdn : ∀ n, 0 < c.alphaDown n) (hs : List Bool) (a a' : Ad (SSSt α m))
@@ -86,10 +91,13 @@ theorem C14_ss_bounded {m : Nat} (c : SSCfg α) (hup : ∀ n, 0 < c.alphaUp n)
     · exact ssBody_pos hup hdn hbody hb
     · rw [hnum]; exact hb
   · intro cap B hc hB hle
-    refine Ad.run_inv _ id (fun b : Ad (SSSt α m) => ∀ i : Fin m, b.num.vals[i] ≤ B) ?_ hs a a' hle hr
+    have := Ad.run_inv _ id
+      (fun b : Ad (SSSt α m) => (∀ i : Fin m, 0 < b.num.vals[i]) ∧ ∀ i : Fin m, b.num.vals[i] ≤ B)
+      ?_ hs a a' ⟨hpos, hle⟩ hr
+    · exact this.2
     intro b x b' hb hu
     rcases (Ad.update_eq_some hu).2 with ⟨_, hbody⟩ | ⟨_, hnum⟩
-    · exact ssBody_le hc hup hdn hbody hB hb
+    · exact ⟨ssBody_pos hup hdn hbody hb.1, ssBody_le hc hup hdn hbody hB hb.1 hb.2⟩
     · rw [hnum]; exact hb
 
 /-- The Sivia–Skilling update never raises from a clock with `start_step ≤ nsteps + 1`
@@ -364,31 +372,35 @@ theorem C14_eig_cov_admissible {n : Nat} (c : ATCfg α) (tol : α) {a a' : Ad (E
 
 /-! ## von Mises–Fisher -/
 
-/-- Whenever an update returns, the concentration and the normalisation it leaves are
-    positive (the setters raise otherwise): `κ > 0` always. -/
+/-- Whenever an update returns, the concentration it leaves is positive and the
+    normalisation non-negative (the setters raise otherwise): `κ > 0` always. -/
 theorem C14_vmf_kappa_pos (c : ATCfg α) (hs : List (Bool × VmfIn α)) (a a' : Ad (VmfSt α))
-    (h0 : 0 < a.num.kappa ∧ 0 < a.num.norm)
+    (h0 : 0 < a.num.kappa ∧ 0 ≤ a.num.norm)
     (hr : Ad.run (fun (x : Bool × VmfIn α) dk _ s => vmfBody c x.2 dk s) (·.1) a hs = some a') :
-    0 < a'.num.kappa ∧ 0 < a'.num.norm := by
-  refine Ad.run_inv _ (·.1) (fun b : Ad (VmfSt α) => 0 < b.num.kappa ∧ 0 < b.num.norm) ?_ hs a a' h0 hr
+    0 < a'.num.kappa ∧ 0 ≤ a'.num.norm := by
+  refine Ad.run_inv _ (·.1) (fun b : Ad (VmfSt α) => 0 < b.num.kappa ∧ 0 ≤ b.num.norm) ?_ hs a a' h0 hr
   intro b x b' hb hu
   rcases (Ad.update_eq_some hu).2 with ⟨_, hbody⟩ | ⟨_, hnum⟩
   · obtain ⟨h1, h2, h3, h4, _⟩ := vmfBody_eq_some hbody
     rw [h3, h4]; exact ⟨h1, h2⟩
   · rw [hnum]; exact hb
 
-/-- IEEE doubles evaluate `κ/(4π sinh κ)` to a positive number exactly for `κ` up to
-    ≈ 707.94 (`4π sinh κ` overflows beyond; checked on the real numpy at every run). -/
-def Representable (κ : α) : Prop := κ ≤ 707
-
-/-- **Partial** (IEEE enters as a hypothesis): an update whose oracle values are those of a
-    faithful evaluation — `exp` positive, the normalisation positive on representable
-    concentrations — does not raise as long as the new concentration is representable. -/
-theorem C14_vmf_no_raise_partial (c : ATCfg α) (i : VmfIn α) (dk : Int) (s : VmfSt α)
-    (hek : 0 < i.ek) (hnm : Representable i.ek → 0 < i.nm) (hrep : Representable i.ek) :
-    ∃ s', vmfBody c i dk s = some s' := by
+/-- An update raises in exactly two cases: the evaluated `exp(log κ)` is not positive, or the
+    evaluated normalisation is negative.  In particular it returns for every positive
+    concentration whose normalisation evaluates to a number `≥ 0` — 0 included, which is
+    what IEEE doubles give for `κ > 707.94`. -/
+theorem C14_vmf_no_raise (c : ATCfg α) (i : VmfIn α) (dk : Int) (s : VmfSt α) :
+    (vmfBody c i dk s = none ↔ ¬ (0 < i.ek) ∨ i.nm < 0) ∧
+    (0 < i.ek → 0 ≤ i.nm → ∃ s', vmfBody c i dk s = some s') := by
   unfold vmfBody
-  simp [hek, hnm hrep]
+  constructor
+  · by_cases h1 : 0 < i.ek
+    · by_cases h2 : 0 ≤ i.nm
+      · simp [h1, h2]
+      · simp [h1, h2, not_le.mp h2]
+    · simp [h1]
+  · intro h1 h2
+    simp [h1, h2]
 
 /-- `log κ` obeys the same bound as `log λ`: within `max(ξ,1-ξ)` times the gain per update. -/
 theorem C14_vmf_logkappa_step (g xi l ar : α) (hg : 0 ≤ g) (h0 : 0 ≤ ar) (h1 : ar ≤ 1) :
@@ -398,6 +410,79 @@ theorem C14_vmf_logkappa_step (g xi l ar : α) (hg : 0 ≤ g) (h0 : 0 ≤ ar) (h
   unfold vmfLogKappa
   have e : l + g * (xi - ar) - l = -(-l + g * (ar - xi) - -l) := by ring
   rw [e, abs_neg]
+  exact this
+
+/-- Under every history with acceptance ratios in `[0,1]`: `log κ` stays within
+    `max(ξ, 1-ξ)` times the gains absorbed of its initial value, and these never exceed the
+    gains of the whole window `Σ_{1 < d < T} g_d`; histories on which an update raises are
+    excluded by `hr` (`C14_vmf_no_raise`: there are none for finite positive evaluations). -/
+theorem C14_vmf_logkappa_bounded (c : ATCfg α) (hs : List (Bool × VmfIn α))
+    (hall : ∀ x ∈ hs, 0 ≤ x.2.ar ∧ x.2.ar ≤ 1)
+    (a a' : Ad (VmfSt α)) (hw : a.clock.cfg.window = .at) (hci : ClockInv a)
+    (hg : ATGainOK a.clock.cfg.T c.gain)
+    (hr : Ad.run (fun (x : Bool × VmfIn α) dk _ s => vmfBody c x.2 dk s) (·.1) a hs = some a') :
+    |a'.num.logKappa - a.num.logKappa|
+        ≤ max c.xi (1 - c.xi) * (gsum c.gain a'.clock - gsum c.gain a.clock) ∧
+    gsum c.gain a'.clock ≤ ∑ d ∈ Finset.Ioo (1 : Int) (a.clock.cfg.T : Int), c.gain d := by
+  have key : ∀ (hs : List (Bool × VmfIn α)) (b : Ad (VmfSt α)),
+      (∀ x ∈ hs, 0 ≤ x.2.ar ∧ x.2.ar ≤ 1) →
+      b.clock.cfg = a.clock.cfg → ClockInv b →
+      Ad.run (fun (x : Bool × VmfIn α) dk _ s => vmfBody c x.2 dk s) (·.1) b hs = some a' →
+      a'.clock.cfg = a.clock.cfg ∧ ClockInv a' ∧
+      |a'.num.logKappa - b.num.logKappa|
+        ≤ max c.xi (1 - c.xi) * (gsum c.gain a'.clock - gsum c.gain b.clock) := by
+    intro hs
+    induction hs with
+    | nil =>
+      intro b _ hcfg hcb hrun
+      simp [Ad.run] at hrun; subst hrun
+      exact ⟨hcfg, hcb, by simp⟩
+    | cons x xs ih =>
+      intro b hall hcfg hcb hrun
+      simp only [Ad.run, Option.bind_eq_some_iff] at hrun
+      obtain ⟨b', hb', hrun⟩ := hrun
+      obtain ⟨hc, hcase⟩ := Ad.update_eq_some hb'
+      have hcfg' : b'.clock.cfg = a.clock.cfg := by rw [hc, update_cfg]; exact hcfg
+      obtain ⟨h1, h2, h3⟩ := ih b' (fun y hy => hall y (List.mem_cons_of_mem _ hy)) hcfg'
+        (clockInv_step hcb hb') hrun
+      refine ⟨h1, h2, ?_⟩
+      have hx := hall x (List.mem_cons_self ..)
+      have hw' : b.clock.cfg.window = .at := by rw [hcfg]; exact hw
+      have hgs := gsum_update c.gain b.clock x.1 (arTag x.1) []
+      rw [← hc] at hgs
+      have hstep : |b'.num.logKappa - b.num.logKappa|
+          ≤ max c.xi (1 - c.xi) * (gsum c.gain b'.clock - gsum c.gain b.clock) := by
+        rcases hcase with ⟨hup, hbody⟩ | ⟨hup, hnum⟩
+        · have hin : b.clock.inWindow = true := by
+            cases hcw : b.clock.inWindow <;> simp [hcw] at hup ⊢
+          have hbd := inWindow_bounds (Or.inr hw') hin
+          rw [hw', hcfg] at hbd
+          have hgp := (hg _ (by simpa [winLo] using hbd.1) hbd.2).1
+          obtain ⟨_, _, _, _, hlk⟩ := vmfBody_eq_some hbody
+          rw [hgs, hlk]
+          simp only [hup, if_true, add_sub_cancel_left]
+          have := C14_vmf_logkappa_step (c.gain b.clock.dkUpdate) c.xi b.num.logKappa x.2.ar
+            hgp.le hx.1 hx.2
+          rw [mul_comm] at this
+          exact this
+        · rw [hgs, hnum]
+          simp [hup]
+      calc |a'.num.logKappa - b.num.logKappa|
+          = |(a'.num.logKappa - b'.num.logKappa) + (b'.num.logKappa - b.num.logKappa)| := by
+            congr 1; ring
+        _ ≤ |a'.num.logKappa - b'.num.logKappa| + |b'.num.logKappa - b.num.logKappa| :=
+            abs_add_le _ _
+        _ ≤ max c.xi (1 - c.xi) * (gsum c.gain a'.clock - gsum c.gain b'.clock)
+            + max c.xi (1 - c.xi) * (gsum c.gain b'.clock - gsum c.gain b.clock) := add_le_add h3 hstep
+        _ = max c.xi (1 - c.xi) * (gsum c.gain a'.clock - gsum c.gain b.clock) := by ring
+  obtain ⟨hcfg, hca, hb⟩ := key hs a hall rfl hci hr
+  refine ⟨hb, ?_⟩
+  have := gsum_le_window c.gain hca.2.2 (by
+    intro d h1 h2
+    rw [hcfg, hw] at h1
+    rw [hcfg] at h2
+    exact (hg d (by simpa [winLo] using h1) h2).1.le)
+  rw [hcfg, hw] at this
   exact this
 
 /-! ## The negative results -/
@@ -450,6 +535,59 @@ theorem C14_window_gain_ge (T : ℕ) (hT : 2 ≤ T) :
     (3 / 2) * (T : ℝ) ^ (0.4 : ℝ) - 10 / 3 ≤ ∑ d ∈ Finset.Ioo (1 : ℤ) (T : ℤ), gainAT T d :=
   sum_gainAT_ge T hT
 
+/-- ... and to at most `2.5 T^0.4`. -/
+theorem C14_window_gain_le (T : ℕ) (hT : 2 ≤ T) :
+    ∑ d ∈ Finset.Ioo (1 : ℤ) (T : ℤ), gainAT T d ≤ 2.5 * (T : ℝ) ^ (0.4 : ℝ) :=
+  sum_gainAT_le T hT
+
+/-- The range of `log κ` on which IEEE doubles evaluate `exp(log κ)` to a positive finite
+    number (`exp` overflows to `inf` above 709.78 — the `norm` setter then raises on the NaN
+    normalisation — and underflows to 0 below -745.13 — the `kappa` setter then raises). -/
+def Representable (lk : ℝ) : Prop := -745 < lk ∧ lk < 709
+
+/-- The remaining floating-point hazard is out of reach: with the code's gains, from the
+    constructor's `κ = 5`, for EVERY target rate in `(0,1)`, EVERY history (acceptance ratios
+    in `[0,1]`), start step and jump interval, and every `adaptation_duration ≤ 10^6`, the
+    exact `log κ` stays within `log 5 ± 630`, inside the representable range; by
+    `C14_vmf_no_raise` no update then raises. -/
+theorem C14_vmf_logkappa_representable (T : ℕ) (hT : T ≤ 1000000) (xi : ℝ) (hxi : 0 < xi ∧ xi < 1)
+    (hs : List (Bool × VmfIn ℝ)) (hall : ∀ x ∈ hs, 0 ≤ x.2.ar ∧ x.2.ar ≤ 1)
+    (a a' : Ad (VmfSt ℝ)) (hl : a.num.logKappa = Real.log 5)
+    (hw : a.clock.cfg.window = .at) (hci : ClockInv a) (hev : a.clock.events = [])
+    (hTT : a.clock.cfg.T = T)
+    (hr : Ad.run (fun (x : Bool × VmfIn ℝ) dk _ s =>
+      vmfBody { xi := xi, gain := gainAT T } x.2 dk s) (·.1) a hs = some a') :
+    Representable a'.num.logKappa ∧ |a'.num.logKappa - Real.log 5| ≤ 630 := by
+  have hg : ATGainOK a.clock.cfg.T (gainAT T) := by rw [hTT]; exact C13_gain_exact_at T
+  obtain ⟨h1, h2⟩ := C14_vmf_logkappa_bounded { xi := xi, gain := gainAT T } hs hall a a' hw hci hg hr
+  simp only at h1 h2
+  have hg0 : gsum (gainAT T) a.clock = 0 := by simp [gsum, hev]
+  rw [hg0, sub_zero, hl] at h1
+  rw [hTT] at h2
+  have hmax : max xi (1 - xi) ≤ 1 := max_le hxi.2.le (by linarith)
+  have hmax0 : 0 ≤ max xi (1 - xi) := le_trans hxi.1.le (le_max_left _ _)
+  have hsum : ∑ d ∈ Finset.Ioo (1 : ℤ) (T : ℤ), gainAT T d ≤ 630 := by
+    by_cases hT2 : 2 ≤ T
+    · have := sum_gainAT_le T hT2
+      have := rpow_le_of_1e6 T hT
+      linarith
+    · have : Finset.Ioo (1 : ℤ) (T : ℤ) = ∅ := by
+        ext d; simp only [Finset.mem_Ioo, Finset.notMem_empty, iff_false]; omega
+      rw [this]; norm_num
+  have hgs0 : 0 ≤ gsum (gainAT T) a'.clock := by
+    by_contra hneg
+    have := abs_nonneg (a'.num.logKappa - Real.log 5)
+    have hmaxpos : 0 < max xi (1 - xi) := lt_of_lt_of_le hxi.1 (le_max_left _ _)
+    have := mul_neg_of_pos_of_neg hmaxpos (not_le.mp hneg)
+    linarith
+  have hbound : |a'.num.logKappa - Real.log 5| ≤ 630 := by
+    calc |a'.num.logKappa - Real.log 5| ≤ max xi (1 - xi) * gsum (gainAT T) a'.clock := h1
+      _ ≤ 1 * gsum (gainAT T) a'.clock := mul_le_mul_of_nonneg_right hmax hgs0
+      _ ≤ 630 := by linarith
+  obtain ⟨hl1, hl2⟩ := log_five_bounds
+  rw [abs_le] at hbound
+  exact ⟨⟨by linarith [hbound.1], by linarith [hbound.2]⟩, abs_le.mpr hbound⟩
+
 /-- The Veitch gain is at most `0.9` (for any decay `≥ 0`): with `C14_veitch_bounded`,
     `σ ≤ σ₀ + 0.09 (1-ξ) Δ (T-1)`. -/
 theorem C14_veitch_gain_le (β : ℝ) (hβ : 0 ≤ β) (dk : ℤ) (h1 : 1 ≤ dk) : gainV β dk ≤ 0.9 :=
@@ -479,20 +617,21 @@ theorem C14_at_stall_witness {n : Nat} (T : ℕ) (hT : 2 ≤ T) (xi : ℝ) (hxi 
   simp only
   nlinarith
 
-/-- **The overflow** (F18).  Exact arithmetic: from the constructor's `κ = 5`
-    (`log κ = log 5`), target rate `0.234`, a fresh default clock and
+/-- **Why the normalisation may be 0** (F18, repaired).  Exact arithmetic: from the
+    constructor's `κ = 5` (`log κ = log 5`), target rate `0.234`, a fresh default clock and
     `adaptation_duration = T ≥ 1200`, a window of always-rejected steps (acceptance ratio
-    0: a sharply peaked target) drives the concentration above 709 — not `Representable`:
-    numpy's `4π sinh κ` is `inf`, the normalisation 0, and the `norm` setter raises
-    `ValueError` inside `_update`.  (`T ≥ 1200` is what this proof's constants give; the
-    real code crosses 707.94 from `T ≈ 1050` on.) -/
-theorem C14_vmf_overflow_witness (T : ℕ) (hT : 1200 ≤ T)
+    0: a sharply peaked target) drives the concentration above 709, where numpy's
+    `4π sinh κ` is `inf` and the normalisation evaluates to 0.  The pinned tree raised
+    `ValueError` there inside `_update`; the repaired `norm` setter accepts 0
+    (`C14_vmf_no_raise`).  (`T ≥ 1200` is what this proof's constants give; the real code
+    crosses 707.94 from `T ≈ 1050` on.) -/
+theorem C14_vmf_norm_underflow_witness (T : ℕ) (hT : 1200 ≤ T)
     (hs : List (Bool × VmfIn ℝ)) (hall : ∀ x ∈ hs, x.2.ar = 0) (a a' : Ad (VmfSt ℝ))
     (hl : a.num.logKappa = Real.log 5) (hclk : SimpleAT a.clock) (hraw : a.clock.raw = 0)
     (hev : a.clock.events = []) (hTT : a.clock.cfg.T = T) (hlen : T ≤ hs.length)
     (hr : Ad.run (fun (x : Bool × VmfIn ℝ) dk _ s =>
       vmfBody { xi := 0.234, gain := gainAT T } x.2 dk s) (·.1) a hs = some a') :
-    709 < Real.exp a'.num.logKappa ∧ ¬ Representable (Real.exp a'.num.logKappa) := by
+    709 < Real.exp a'.num.logKappa := by
   have key : ∀ (hs : List (Bool × VmfIn ℝ)) (b : Ad (VmfSt ℝ)), (∀ x ∈ hs, x.2.ar = 0) →
       b.num.logKappa = Real.log 5 + 0.234 * (gsum (gainAT T) b.clock - gsum (gainAT T) a.clock) →
       Ad.run (fun (x : Bool × VmfIn ℝ) dk _ s =>
@@ -531,19 +670,17 @@ theorem C14_vmf_overflow_witness (T : ℕ) (hT : 1200 ≤ T)
       Real.exp_le_exp.mpr h5
     have h2 := exp_five_gt
     nlinarith
-  refine ⟨hexp, ?_⟩
-  unfold Representable
-  linarith
+  exact hexp
 
 /-- In exact arithmetic the update itself can never raise: `exp` is positive and so is the
-    true normalisation `κ/(4π sinh κ)` — the crash is purely a floating-point one. -/
+    true normalisation `κ/(4π sinh κ)`. -/
 theorem C14_vmf_exact_never_raises (c : ATCfg ℝ) (ar : ℝ) (dk : Int) (s : VmfSt ℝ) :
     let lk := vmfLogKappa (c.gain dk) c.xi s.logKappa ar
     ∃ s', vmfBody c (VmfIn.mk ar (Real.exp lk)
       (Real.exp lk / (4 * Real.pi * Real.sinh (Real.exp lk)))) dk s = some s' := by
   intro lk
   unfold vmfBody
-  simp [Real.exp_pos, vmf_norm_pos _ (Real.exp_pos lk)]
+  simp [Real.exp_pos, (vmf_norm_pos _ (Real.exp_pos lk)).le]
 
 /-! ## Non-vacuity -/
 
